@@ -49,6 +49,8 @@ CONTENTS = {
              'c2': {'svc:plain': 'role:a2', 'svc:new': 'role:anew'},
              # an override under the DEPRECATED name, in a directory file
              'c3': {'svc:old': 'role:aold'},
+             # 'cz': the file exists but holds nothing at all (zero bytes)
+             'cz': None,
              'c0': {}},
     'd1/b': {'c1': {'svc:over': 'role:b1', 'svc:extra': 'role:b1'},
              'c0': {}},
@@ -62,7 +64,7 @@ WORLDS = {
                'contents': {'main': ['c1', 'c2', 'c0'], 'd1/a': ['c1', 'c2'],
                             'd1/b': ['c1', 'c0'], 'd2/a': ['c1', 'c0']}},
     'w2': {'files': ['main', 'd1/a'], 'contents': {'main': ['c1', 'c2', 'c0'],
-                                                   'd1/a': ['c1', 'c0']}},
+                                                   'd1/a': ['c1', 'cz']}},
     'w3': {'files': ['main', 'd1/a', 'd2/a'],
            'contents': {'main': ['c1', 'c2', 'c0'], 'd1/a': ['c1', 'c2'],
                         'd2/a': ['c1', 'c0']}},
@@ -121,7 +123,9 @@ class System:
         return enf
 
     def _write(self, f, cid):
-        self.w.write(PATHS[f], world.dumps_policy(CONTENTS[f][cid], 'json'))
+        body = CONTENTS[f][cid]
+        self.w.write(PATHS[f], '' if body is None else
+                     world.dumps_policy(body, 'json'))
         self.content[f] = cid
 
     def enabled(self, force):
